@@ -119,7 +119,7 @@ def main():
     ck.do_build()
     rnd = random.Random(ck.seed + 6)
     quick = ck.tier == "quick"
-    cases = genrun.corpus_cases() + genrun.order_terminal_cases()
+    cases = genrun.corpus_cases() + genrun.order_terminal_cases() + genrun.zero_reserve_cases() * 3
     cases += genrun.gen_cases(rnd, 260 if quick else 6000)
     cases += negative_variants(rnd, cases, 60 if quick else 1500)
     outs = ck.driver.run([{"op": "WELLPOSED", "els": c.els} for c in cases])
@@ -135,7 +135,7 @@ def main():
         s = rec["summary"]
         ck.case((c.text, tuple(genrun.history(rec["log"]))), nontrivial=c.wp or c.cert,
                 sample={"text": c.text, "well_posed": c.wp, "residues": None if s is None else len(s["sizes"]), "error": None if rec["error"] is None else rec["error"].name})
-        if c.archetype == "orderterminal":
+        if c.archetype in ("orderterminal", "zeroreserve"):
             # closable by construction, whatever the analysis of the PARSED object says (a wrong parse must not hide a failing generation)
             if rec["error"] is not None or s is None or s["opens"]:
                 ck.fail("well-posed-molecule-does-not-complete", {"text": c.text, "history": genrun.history(rec["log"])[:40]},
